@@ -312,13 +312,18 @@ func runFlags(c *hx.Ctx) {
 	// 2 threads x (1|2) ops over the two real flags, every schedule
 	for _, shape := range [][]int{{2, 1}, {1, 2}, {2, 2}} {
 		for _, init := range []uint64{0, 3} {
-			assignments(shape, two, func(th [][]flagOp) { cnt(shape, r.explore(c, init, th, 0)) })
+			assignments(shape, two, func(th [][]flagOp) {
+				if len(shape) == 2 && shape[0]+shape[1] == 4 && !c.Thorough() && !c.Rng.Chance(50) {
+					return
+				}
+				cnt(shape, r.explore(c, init, th, 0))
+			})
 		}
 	}
 	// 3 threads x 1 op, every schedule
 	for _, init := range []uint64{0, 5} {
 		assignments([]int{1, 1, 1}, three, func(th [][]flagOp) {
-			if c.Thorough() || c.Rng.Chance(35) {
+			if c.Rng.Chance(c.N(12, 60)) {
 				cnt([]int{1, 1, 1}, r.explore(c, init, th, 0))
 			}
 		})
@@ -326,7 +331,7 @@ func runFlags(c *hx.Ctx) {
 	// wider flags (multi-bit masks, the top bit) and bigger shapes: seeded samples
 	wide := allOps([]uint64{1, 2, 3, 6, 1 << 63, 1<<63 | 1})
 	shapes := [][]int{{1, 1}, {2, 2}, {1, 1, 1}, {2, 1, 1}, {1, 2, 2}, {2, 2, 2}, {1, 1, 1, 1}, {3, 2}}
-	for i := 0; i < c.N(60, 1500); i++ {
+	for i := 0; i < c.N(60, 600); i++ {
 		shape := shapes[c.Rng.Intn(len(shapes))]
 		var th [][]flagOp
 		for _, n := range shape {
@@ -341,7 +346,7 @@ func runFlags(c *hx.Ctx) {
 		for _, n := range shape {
 			steps += 2 * n
 		}
-		if steps <= 8 {
+		if steps <= 6 || (steps <= 8 && len(shape) == 2) {
 			cnt(shape, r.explore(c, init, th, 0))
 		} else {
 			// too many schedules to enumerate for every sample: the first 40 in depth-first order + 40 random ones
@@ -352,7 +357,7 @@ func runFlags(c *hx.Ctx) {
 	}
 	// 3 threads x 2 ops: complete enumeration for a few assignments (thorough only: 34650+ schedules each)
 	if c.Thorough() {
-		for i := 0; i < 2; i++ {
+		for i := 0; i < 1; i++ {
 			var th [][]flagOp
 			for t := 0; t < 3; t++ {
 				th = append(th, []flagOp{three[c.Rng.Intn(len(three))], three[c.Rng.Intn(len(three))]})
